@@ -232,6 +232,10 @@ func checkC19(p *Program, r *Report) {
 	checkRankEnd(p, r, "C19.rank-end", fs)
 	// ---- leaf lines carry the retained values (shared with C01): value array layout decided per element
 	checkVLenWidth(p, r, "C19.vlen-width")
+	// String() decodes every inner node: a short-node or presence bitmap that does not cover all
+	// ordinals is out of range for the last nodes
+	r.Explanation += " (capacity) presence and short-node bitmaps are built with a capacity that covers every ordinal probed (rule shared with C01)."
+	checkCapacity(p, r, "C19.capacity")
 }
 
 func isU64Slice(t types.Type) bool {
